@@ -392,9 +392,13 @@ def run_case(case, extra):
                   functions=["bad"])
         arn = w.create_machine("m", d)
         ex = w.start(arn, {"n": 0}, name="e")
-        w.run_until(lambda: terminal(w, ex) is not None or
-                    len(w.nodes[0].state_engine.execution_history.get(ex, [])) > 25000 + 40, limit=80000,
-                    what="history limit through retries")
+        from lsfsim.core import HarnessError
+        try:
+            w.run_until(lambda: terminal(w, ex) is not None or
+                        len(w.nodes[0].state_engine.execution_history.get(ex, [])) > 25000 + 40, limit=30000,
+                        what="history limit through retries")
+        except HarnessError:
+            pass        # neither ended nor grew within the time: judged below (an execution retried for ever at the limit)
         t = terminal(w, ex)
         h = w.nodes[0].state_engine.execution_history.get(ex, [])
         info["history_events"] = len(h)
